@@ -18,6 +18,7 @@ import (
 const modPath = "github.com/vapourismo/knx-go"
 
 type Program struct {
+	constMaps map[*ssa.Global]*constMapInfo
 	repo    string
 	fset    *token.FileSet
 	pkgs    []*packages.Package
